@@ -34,8 +34,10 @@ def _KeepsFeAxes(axis, ndim: int) -> bool:
     return all(a >= 2 if a >= 0 else a >= 2 - ndim for a in axes)
 
 
-_REDUCERS = frozenset(
-    {
+# numpy reductions and the position of their `axis` argument
+_REDUCERS = {
+    func: 1
+    for func in (
         np.sum,
         np.prod,
         np.mean,
@@ -51,8 +53,21 @@ _REDUCERS = frozenset(
         np.any,
         np.argmax,
         np.argmin,
-    }
-)
+        np.ptp,
+        np.count_nonzero,
+        np.nansum,
+        np.nanprod,
+        np.nanmean,
+        np.nanstd,
+        np.nanvar,
+        np.nanmedian,
+        np.nanmax,
+        np.nanmin,
+        np.nanargmax,
+        np.nanargmin,
+    )
+}
+_REDUCERS[np.linalg.norm] = 2  # norm(x, ord, axis)
 
 
 def _FeShape(operands) -> tuple:
@@ -213,6 +228,10 @@ class FeArray(np.ndarray):
             # broadcasting against a FeArray always keeps the (Ne, nPg) axes
             return res.view(FeArray)
         feShape = _FeShape(inputs)
+        if method == "reduce" and not _KeepsFeAxes(
+            kwargs.get("axis", 0), np.ndim(inputs[0])
+        ):
+            feShape = ()
         if isinstance(res, tuple):
             return tuple(FeArray.__wrap(array, feShape) for array in res)
         return FeArray.__wrap(res, feShape)
@@ -225,7 +244,8 @@ class FeArray(np.ndarray):
         # numpy calls a dispatched reduction on the stripped array, so the method wrapper never
         # sees it and the axis has to be read here instead
         if func in _REDUCERS:
-            axis = kwargs.get("axis", args[1] if len(args) > 1 else None)
+            pos = _REDUCERS[func]
+            axis = kwargs.get("axis", args[pos] if len(args) > pos else None)
             if not _KeepsFeAxes(axis, np.ndim(args[0])):
                 feShape = ()
         args = tuple(_Base(arg) for arg in args)
